@@ -333,6 +333,9 @@ def check(ctx, rep):
     from rules.props import c07
     rep.rule('R04.i', 'every task that leaves a command — finished, aborted or evicted — publishes `finished` and wakes its join handles', floor=2)
     c07.check_finish_notify(rep, 'R04.i', core)
+    # R04.j: hosting forwards every output: the hosted stream yields while anything is queued (shared with C07 R07.e)
+    rep.rule('R04.j', 'a hosted command yields an item whenever one is queued: Pending only after both output queues were found empty, end only when done', floor=3)
+    c07.check_stream_end(rep, 'R04.j', core)
     # R04.h: done / event / notify / request / stream primitives produce exactly their single output
     from rules.props import prims
     rep.rule('R04.h', 'done / event / notify_shell / request_from_shell / stream_from_shell make exactly the one context call they stand for, '
